@@ -162,7 +162,7 @@ def eval_case(c):
         fam = "Complex" if pair.startswith("Complex") else ("Hilbert" if pair.startswith("Hilbert") else "")
         nm = pair[len(fam):]
         alpha = {"MCA": [1.0, 1.0], "CCA": [0.0, 0.0], "RDA": [0.0, 1.0]}[nm]
-        Dx, Dy = (da * (1 + 0.4j), Y * (1 - 0.2j)) if fam == "Complex" else (da, Y)
+        Dx, Dy = (da + 1j * da.roll(time=3, roll_coords=False), Y - 0.5j * Y.roll(time=5, roll_coords=False)) if fam == "Complex" else (da, Y)
         kw = dict(n_modes=2, use_pca=c["use_pca"], n_pca_modes=3, standardize=c["std"], solver=c["solver"], random_state=3)
         a = getattr(C_, pair)(**kw).fit(Dx, Dy, "time")
         b = getattr(C_, fam + "CPCCA")(alpha=alpha, **kw).fit(Dx, Dy, "time")
@@ -211,7 +211,7 @@ def eval_case(c):
     elif pair == "PCA(all)=noPCA":
         for cls, kw in ((C_.MCA, {}), (C_.CPCCA, dict(alpha=0.5)), (C_.ComplexCPCCA, dict(alpha=0.3))):
             cplx = cls is C_.ComplexCPCCA
-            Dx, Dy = (da * (1 + 0.4j), Y * (1 - 0.2j)) if cplx else (da, Y)
+            Dx, Dy = (da + 1j * da.roll(time=3, roll_coords=False), Y - 0.5j * Y.roll(time=5, roll_coords=False)) if cplx else (da, Y)
             a = cls(n_modes=2, use_pca=True, n_pca_modes="all", solver="full", **kw).fit(Dx, Dy, "time")
             b = cls(n_modes=2, use_pca=False, solver="full", **kw).fit(Dx, Dy, "time")
             if real.relerr(a.data["singular_values"].values, b.data["singular_values"].values) > 1e-6:
